@@ -42,7 +42,8 @@ AMOUNTS = ["const", "negconst", "isub", "reg", "expr", "fixedconst",
            "isubreg", "isubexpr", "var_i", "isubvar_i", "var_I", "regw",
            "isubregw", "isubfixedconst", "var_q", "local_i",
            "var_x", "isubvar_x", "isubxexpr",
-           "zero_then_const", "mm_same", "named_diff"]
+           "zero_then_const", "mm_same", "named_diff", "isubreg_twice",
+           "stack_value"]
 FIXED_ONLY = ("fixedconst", "isubfixedconst", "var_x", "isubvar_x",
               "isubxexpr")
 # ptrN: the cell of an array map addressed through a pointer the program
@@ -55,7 +56,8 @@ def plan(tier, seed):
     combos = [(f, k, a) for f in FMTS for k in KINDS for a in AMOUNTS
               if not (a in FIXED_ONLY and f != "x")
               and not (a == "mm_same" and f == "x")
-              and not (k.startswith("ptr") and a == "mm_same")]
+              and not (k.startswith("ptr") and a == "mm_same")
+              and not (a == "stack_value" and k != "dict")]
     n = 16
     shards = [dict(seed=seed, shard=i, combos=combos[i::n], tier=tier)
               for i in range(n)]
@@ -106,7 +108,7 @@ def build(fmt, kind, amount, amount_value):
 
     def program(self):
         e = self
-        if amount in ("reg", "expr", "isubreg", "isubexpr"):
+        if amount in ("reg", "expr", "isubreg", "isubexpr", "isubreg_twice"):
             e.sr8 = e.amt
         if amount in ("regw", "isubregw"):
             e.w8 = e.amt_I
@@ -115,6 +117,11 @@ def build(fmt, kind, amount, amount_value):
         target = None
         if kind == "dict":
             e.d.key.k = 7
+            if amount == "stack_value":
+                # merge-or-insert: the amount is prepared in the Dict's own
+                # stack-side value structure
+                e.d.value.c = e.amt_x if fmt == "x" else \
+                    e.amt if size == 8 else e.amt_I
             ctx = e.d.lookup()
             value, Else = ctx.__enter__()
         if kind == "local":
@@ -173,6 +180,18 @@ def build(fmt, kind, amount, amount_value):
                 aux -= d_
                 e.aux = aux
                 cur -= d_
+            elif amount == "isubreg_twice":
+                # the same register subtracted from two variables one after
+                # the other: the cell is the second
+                aux = e.aux
+                aux -= e.sr8
+                e.aux = aux
+                cur -= e.sr8
+            elif amount == "stack_value" and kind == "dict":
+                cur += e.d.value.c
+            elif amount == "stack_value":
+                cur += e.amt_x if fmt == "x" else \
+                    e.amt if size == 8 else e.amt_I
             elif amount == "zero_then_const":
                 # an addition of nothing followed by a real one: between
                 # the two another instance's addition must not get lost
@@ -239,8 +258,12 @@ def amount_raw(fmt, amount, amount_value, amt_in):
         return 150000
     elif amount == "isubfixedconst":
         return -150000
-    elif amount == "isubreg":
+    elif amount in ("isubreg", "isubreg_twice"):
         d = -amt_in
+    elif amount == "stack_value":
+        if fmt == "x":
+            return amt_in
+        return amt_in if fmt in "qQ" else amt_in & 0xffffffff
     elif amount == "isubexpr":
         d = -(amt_in * 3 + 1)
     elif amount in ("var_i", "var_q", "local_i"):
@@ -757,6 +780,7 @@ def finalize(res, tier, seed):
     missing = [f"{f}/{k}/{a}" for f in FMTS for k in ("array", "dict")
                for a in AMOUNTS if not (a in FIXED_ONLY and f != "x")
                and not (a == "mm_same" and f == "x")
+               and not (a == "stack_value" and k != "dict")
                and not c.get(f"schedules[{f}/{k}/{a}/2]")]
     res.info["shared_combinations_without_schedules"] = missing
     if missing:
